@@ -106,9 +106,11 @@ CLAIMS = {
     'C04': dict(
         text=SESS + "Proved for every event sequence: conservation of messages (reader output = gone ++ held ++ queued, in order; frames taken ++ "
              "buffered = frames received), observable deliveries = the taken list, delivered is a subsequence of the messages sent (never reordered, "
-             "duplicated, invented) and a prefix when no late cancel occurred (C04_prefix_partial), a dispatcher step delivers the head of the queue, "
-             "a receive cancelled while blocked reports the cancellation, consumes nothing and leaves the session usable. Known finding with a "
-             "decide-d witness replayed on the implementation: a cancel landing after the helper task took the message loses it.",
+             "duplicated, invented) and a PREFIX of them at every moment (C04_prefix, C04_nothing_lost: full since /repo 426c1c1), a dispatcher step "
+             "delivers the head of the queue, a receive cancelled at ANY phase - also after its helper task took the message - reports the cancellation, "
+             "consumes nothing and the next receive returns the next undelivered message (C04_cancelled_receive_consumes_nothing, "
+             "C04_receive_after_cancelled_receive). The late-cancel loss was a known finding of earlier sessions; it is repaired (426c1c1), the pre-repair "
+             "transition is kept as Witness/C04Late (decided: loses the message on the recorded history).",
         design="§5-C04", technique="Lean 4 invariant proof over a task-level state machine + step-log replay correspondence"),
     'C05': dict(
         text=SESS + "Proved for every configuration and event sequence: invariant A (closed <-> close body entered; close-sequence monitor): transport "
@@ -179,7 +181,7 @@ EXT = {
     'C03': "Added: bursts of 66-520 frames per poll, received packets up to the protocol maximum (payloads >= 32767 bytes: /repo d656a66), streams run through a "
            "session and its transport (pause_reading/resume_reading honoured), embedded look-alike packets cut exactly at their boundaries.",
     'C04': "Added: the second stage (ITCH/OUCH/SQF/ASN.1 application sessions: decode + own queue) is in the model (Model/AppSession.lean, a product with the "
-           "unchanged session machine); Props/C04App: what the application consumer gets is a subsequence of, and without a late cancel a prefix of, decode applied "
+           "unchanged session machine); Props/C04App: what the application consumer gets is a prefix of decode applied "
            "to the decodable messages on the wire, both consumer modes, falsy values included; every application scenario (4 kinds, real compiled ASN.1 spec) is "
            "replayed event by event through the model. Props/C04Bytes: refinement from the byte-level reader (C03 model) to the token-level reader of the session "
            "machine, so the prefix/subsequence theorems are stated over the BYTES received.",
